@@ -47,6 +47,27 @@ def run(ctx):
                      "%s is reachable without passing the configuration gate" % o.target_path, sample={"rule": "DOM-before", "a": "validate_config_database", "b": o.target_path.split("::")[-2] + "::" + o.target_path.split("::")[-1]})
             a = origin(sf, gate.args[0])
             R.ob(mentions(a, "config"), "WIRE", gate.where(), "WIRE|start|gate-arg", "the gate validates `%s`, not the configuration being started" % show(a))
+            # ... and it is the configuration *as supplied*: the recorded settings reach the gate unchanged.  A normalising
+            # (many-to-one) map between the caller's configuration and the compared rows lets two different settings reopen
+            # each other's directories.
+            import wire as W
+            ra = W.strip(W.resolve(F, sf, a))
+            bad = []
+            if ra[0] == "param":
+                pass
+            elif ra[0] == "agg" and len(ra) > 3 and ra[3]:
+                for fld, val in zip(ra[3], ra[2]):
+                    if fld not in KEYS.values():
+                        continue
+                    sv = W.strip(val)
+                    if not (sv[0] == "field" and sv[2] == "." + fld and W.strip(sv[1])[0] == "param"):
+                        bad.append("%s = %s" % (fld, show(val)[:60]))
+            else:
+                bad.append(show(ra)[:80])
+            R.ob(not bad, "WIRE", gate.where(), "WIRE|start|gate-config-as-supplied",
+                 "the configuration handed to the reopen gate is not the one supplied to start(): %s. Settings that differ before this "
+                 "rewrite can compare equal after it, so a directory reopens under a configuration it was not created with" % "; ".join(bad),
+                 sample={"rule": "WIRE", "fn": "start", "gate_argument": show(ra)[:60]})
     # 2. keys
     sets = [c for c in v.calls() if (c.method or "") == "set" and "ConfigDatabase" in (c.self_ty or c.target_path or "") and not v.is_cleanup(c.bb)]
     vals = [c for c in v.calls() if (c.method or "") == "validate" and "ConfigDatabase" in (c.self_ty or c.target_path or "") and not v.is_cleanup(c.bb)]
@@ -58,9 +79,16 @@ def run(ctx):
                 return k
         return show(t)[:60]
 
+    INJECTIVE = ("clone", "to_string", "deref", "as_str", "to_owned", "borrow", "as_ref", "into", "from", "__stability", "initialize", "get", "call_once", "force", "new")
+
     def val_of(c, key):
+        """the compared / recorded value is the setting itself, reached through value-preserving (injective) wrappers only:
+        a normalising function in between (trim, lower-casing, an alias table) makes different settings compare equal"""
         t = origin(v, c.args[2])
         want = KEYS.get(key)
+        extra = sorted({x[1].split("::")[-1] for x in calls_in(t) if x[1].split("::")[-1] not in INJECTIVE and not x[1].split("::")[-1].startswith("{")})
+        if extra:
+            return False, "%s (through %s)" % (show(t)[:70], ", ".join(extra))
         return (want is not None and mentions(t, want)), show(t)[:100]
     skeys = [key_of(c) for c in sets]
     vkeys = [key_of(c) for c in vals]
